@@ -20,11 +20,12 @@ structure SameSend (c c' : Chan) : Prop where
   sendWindow : c'.sendWindow = c.sendWindow
   sendBuf : c'.sendBuf = c.sendBuf
   recvState : c'.recvState = c.recvState
+  recvEofPending : c'.recvEofPending = c.recvEofPending
 
-theorem SameSend.refl (c : Chan) : SameSend c c := ⟨rfl, rfl, rfl, rfl, rfl, rfl, rfl, rfl, rfl, rfl⟩
+theorem SameSend.refl (c : Chan) : SameSend c c := ⟨rfl, rfl, rfl, rfl, rfl, rfl, rfl, rfl, rfl, rfl, rfl⟩
 theorem SameSend.trans {a b c : Chan} (h1 : SameSend a b) (h2 : SameSend b c) : SameSend a c :=
   ⟨h2.1.trans h1.1, h2.2.trans h1.2, h2.3.trans h1.3, h2.4.trans h1.4, h2.5.trans h1.5, h2.6.trans h1.6,
-   h2.7.trans h1.7, h2.8.trans h1.8, h2.9.trans h1.9, h2.10.trans h1.10⟩
+   h2.7.trans h1.7, h2.8.trans h1.8, h2.9.trans h1.9, h2.10.trans h1.10, h2.11.trans h1.11⟩
 
 theorem SameSend.sStage {c c' : Chan} (h : SameSend c c') : sStage c' = sStage c := by
   simp [Channel.sStage, h.sendState]
@@ -98,7 +99,7 @@ theorem deliverData_spec (c : Chan) (d : Bytes) (dt : DType) :
     simp only [needAdjust, decide_eq_false_iff_not] at h
     omega
   unfold deliverData
-  refine ⟨⟨rfl, rfl, rfl, rfl, rfl, rfl, rfl, rfl, rfl, rfl⟩, rfl, ?_, ?_, ?_, ?_, ?_, ?_⟩
+  refine ⟨⟨rfl, rfl, rfl, rfl, rfl, rfl, rfl, rfl, rfl, rfl, rfl⟩, rfl, ?_, ?_, ?_, ?_, ?_, ?_⟩
   · simp only
     split
     · unfold sendPkt; split <;> simp [allAdjust]
@@ -334,8 +335,9 @@ theorem DrainSpec.eff {c c' : Chan} {left : Buf} {ms : List Msg} {os : List Out}
 
 theorem writeEof_spec (c c' : Chan) (ms : List Msg) (hw : WFs c) (h : writeEof c = some (c', ms)) :
     Eff c c' ms [] ∧ c'.recvState = c.recvState ∧ c'.recvBuf = c.recvBuf ∧ c'.recvPaused = c.recvPaused ∧
-    c'.recvWindow = c.recvWindow ∧ c'.pauseAfter = c.pauseAfter ∧
-    ((c.sendBuf = [] ∨ c.sendWindow = 0) → (c'.sendBuf = [] ∨ c'.sendWindow = 0)) := by
+    c'.recvWindow = c.recvWindow ∧ c'.pauseAfter = c.pauseAfter ∧ c'.recvEofPending = c.recvEofPending ∧
+    ((c.sendBuf = [] ∨ c.sendWindow = 0 ∨ c.sendPktsize = 0) →
+      (c'.sendBuf = [] ∨ c'.sendWindow = 0 ∨ c'.sendPktsize = 0)) := by
   unfold writeEof at h
   split at h
   · rename_i hs
@@ -346,7 +348,7 @@ theorem writeEof_spec (c c' : Chan) (ms : List Msg) (hw : WFs c) (h : writeEof c
     have e := sp.eff hw0
     refine ⟨⟨⟨e.cfg.1, e.cfg.2, e.cfg.3, e.cfg.4, e.cfg.5⟩, e.sendStream, e.sendWindow, ?_, e.wfs, e.pktBound, e.recvStream, e.winGe, e.winEq, e.rstage,
       ?_, e.half, ?_⟩, sp.same.recvState, sp.same.recvBuf, sp.same.recvPaused, sp.same.recvWindow,
-      sp.same.pauseAfter, fun _ => sp.exit⟩
+      sp.same.pauseAfter, sp.same.recvEofPending, fun _ => sp.exit⟩
     · have : sStage c = sStage { c with sendState := .eofPending } := by simp [sStage, hs]
       rw [this]; exact e.path
     · intro _; exact hw.chanOpen.mpr (by simp [hs])
@@ -356,14 +358,16 @@ theorem writeEof_spec (c c' : Chan) (ms : List Msg) (hw : WFs c) (h : writeEof c
       · simp at ht
   · simp only [Option.some.injEq, Prod.mk.injEq] at h
     obtain ⟨rfl, rfl⟩ := h
-    exact ⟨Eff.refl c hw, rfl, rfl, rfl, rfl, rfl, id⟩
+    exact ⟨Eff.refl c hw, rfl, rfl, rfl, rfl, rfl, rfl, id⟩
 
 structure EofStepSpec (c c' : Chan) (ms : List Msg) (os : List Out) : Prop where
   eff : Eff c c' ms os
   recvBuf : c'.recvBuf = c.recvBuf
   recvPaused : c'.recvPaused = c.recvPaused
   pauseAfter : c'.pauseAfter = c.pauseAfter
-  exit : (c.sendBuf = [] ∨ c.sendWindow = 0) → (c'.sendBuf = [] ∨ c'.sendWindow = 0)
+  recvEofPending : c'.recvEofPending = c.recvEofPending
+  exit : (c.sendBuf = [] ∨ c.sendWindow = 0 ∨ c.sendPktsize = 0) →
+    (c'.sendBuf = [] ∨ c'.sendWindow = 0 ∨ c'.sendPktsize = 0)
   fired : os = [.eof] ∧ c.recvState = .eofPending ∧ c'.recvState = .eof ∧ c.recvBuf = [] ∧ c.recvPaused ≠ .starting ∨
           os = [] ∧ c' = c ∧ ms = [] ∧ ¬ (c.recvBuf = [] ∧ c.recvPaused ≠ .starting ∧ c.recvState = .eofPending)
 
@@ -386,7 +390,7 @@ theorem eofStep_spec (c c' : Chan) (ms : List Msg) (os : List Out) (hw : WFs c)
       · rename_i c3 ms3 hwe
         simp only [Option.some.injEq, Prod.mk.injEq] at h
         obtain ⟨rfl, rfl, rfl⟩ := h
-        obtain ⟨e1, h1, h2, h3, h4, h5, h6⟩ := writeEof_spec _ _ _ hw2 hwe
+        obtain ⟨e1, h1, h2, h3, h4, h5, h5b, h6⟩ := writeEof_spec _ _ _ hw2 hwe
         have e := e0.trans e1 e1.sendTrans
         simp only [List.nil_append] at e
         have e' : Eff c c3 ms3 [.eof] := by
@@ -395,7 +399,7 @@ theorem eofStep_spec (c c' : Chan) (ms : List Msg) (os : List Out) (hw : WFs c)
           · simpa [dataOuts] using e.recvStream
           · simpa [dataOuts] using e.winGe
           · simpa [dataOuts] using e.winEq
-        exact ⟨e', h2, h3, h5, h6, Or.inl ⟨rfl, hs, h1, hb', hp⟩⟩
+        exact ⟨e', h2, h3, h5, h5b, h6, Or.inl ⟨rfl, hs, h1, hb', hp⟩⟩
     · simp only [Option.some.injEq, Prod.mk.injEq] at h
       obtain ⟨rfl, rfl, rfl⟩ := h
       have e' : Eff c { c with recvState := .eof } [] [.eof] := by
@@ -404,21 +408,23 @@ theorem eofStep_spec (c c' : Chan) (ms : List Msg) (os : List Out) (hw : WFs c)
         · simpa [dataOuts] using e0.recvStream
         · simpa [dataOuts] using e0.winGe
         · simpa [dataOuts] using e0.winEq
-      exact ⟨e', rfl, rfl, rfl, id, Or.inl ⟨rfl, hs, rfl, hb', hp⟩⟩
+      exact ⟨e', rfl, rfl, rfl, rfl, id, Or.inl ⟨rfl, hs, rfl, hb', hp⟩⟩
   · rename_i hc
     simp only [Option.some.injEq, Prod.mk.injEq] at h
     obtain ⟨rfl, rfl, rfl⟩ := h
-    refine ⟨Eff.refl c hw, rfl, rfl, rfl, id, Or.inr ⟨rfl, rfl, rfl, ?_⟩⟩
+    refine ⟨Eff.refl c hw, rfl, rfl, rfl, rfl, id, Or.inr ⟨rfl, rfl, rfl, ?_⟩⟩
     intro ⟨a, b, d⟩
     exact hc ⟨by simp [a], b, d⟩
 
 structure CloseStepSpec (c c' : Chan) (os : List Out) : Prop where
   eff : Eff c c' [] os
-  same : SameSend c { c' with recvState := c.recvState }
+  same : SameSend c { c' with recvState := c.recvState, recvEofPending := c.recvEofPending }
   recvBuf : c'.recvBuf = c.recvBuf
   recvPaused : c'.recvPaused = c.recvPaused
   recvWindow : c'.recvWindow = c.recvWindow
-  fired : os = [.lost] ∧ c.recvState = .closePending ∧ c'.recvState = .closed ∧ c.recvBuf = [] ∨
+  pauseAfter : c'.pauseAfter = c.pauseAfter
+  fired : (c.recvState = .closePending ∧ c'.recvState = .closed ∧ c.recvBuf = [] ∧ c'.recvEofPending = false ∧
+            ((c.recvEofPending = true ∧ os = [.eof, .lost]) ∨ (c.recvEofPending = false ∧ os = [.lost]))) ∨
           os = [] ∧ c' = c ∧ ¬ (c.recvBuf = [] ∧ c.recvState = .closePending)
 
 theorem closeStep_spec (c : Chan) (hw : WFs c) : CloseStepSpec c (closeStep c).1 (closeStep c).2 := by
@@ -428,34 +434,50 @@ theorem closeStep_spec (c : Chan) (hw : WFs c) : CloseStepSpec c (closeStep c).1
     obtain ⟨hb, hs⟩ := hc
     have hb' : c.recvBuf = [] := by simpa [List.isEmpty_iff] using hb
     simp only
-    refine ⟨?_, ⟨rfl, rfl, rfl, rfl, rfl, rfl, rfl, rfl, rfl, rfl⟩, rfl, rfl, rfl, Or.inl ⟨rfl, hs, rfl, hb'⟩⟩
-    refine ⟨⟨rfl, rfl, rfl, rfl, rfl⟩, rfl, by simp [dataOf, bufBytes], by simp [LinkOK, sStage], ⟨hw.chanOpen, hw.drained⟩,
-      by simp, by simp [dataOuts], by simp [dataOuts, bufBytes, adjustSum], by simp [dataOuts, bufBytes, adjustSum],
-      ?_, id, id, Or.inl rfl⟩
-    simp [rStage, hs]
+    refine ⟨?_, ⟨rfl, rfl, rfl, rfl, rfl, rfl, rfl, rfl, rfl, rfl, rfl⟩, rfl, rfl, rfl, rfl,
+      Or.inl ⟨hs, rfl, hb', rfl, ?_⟩⟩
+    · refine ⟨⟨rfl, rfl, rfl, rfl, rfl⟩, rfl, by simp [dataOf, bufBytes], by simp [LinkOK, sStage],
+        ⟨hw.chanOpen, hw.drained⟩, by simp, ?_, ?_, ?_, ?_, id, id, Or.inl rfl⟩
+      · cases c.recvEofPending <;> simp [dataOuts]
+      · cases c.recvEofPending <;> simp [dataOuts, bufBytes, adjustSum]
+      · cases c.recvEofPending <;> simp [dataOuts, bufBytes, adjustSum]
+      · simp [rStage, hs]
+    · cases hf : c.recvEofPending
+      · right; exact ⟨rfl, by simp⟩
+      · left; exact ⟨rfl, by simp⟩
   · rename_i hc
     simp only
-    refine ⟨Eff.refl c hw, SameSend.refl c, rfl, rfl, rfl, Or.inr ⟨rfl, rfl, ?_⟩⟩
+    refine ⟨Eff.refl c hw, SameSend.refl c, rfl, rfl, rfl, rfl, Or.inr ⟨rfl, rfl, ?_⟩⟩
     intro ⟨a, b⟩
     exact hc ⟨by simp [a], b⟩
 
+/-- the possible tails of the callbacks of one `_flush_recv_buf` -/
+def OutTail (tl : List Out) : Prop := tl = [] ∨ tl = [.eof] ∨ tl = [.lost] ∨ tl = [.eof, .lost]
+
 structure FlushRecvSpec (c c' : Chan) (ms : List Msg) (os : List Out) : Prop where
   eff : Eff c c' ms os
-  exit : (c.sendBuf = [] ∨ c.sendWindow = 0) → (c'.sendBuf = [] ∨ c'.sendWindow = 0)
+  exit : (c.sendBuf = [] ∨ c.sendWindow = 0 ∨ c.sendPktsize = 0) →
+    (c'.sendBuf = [] ∨ c'.sendWindow = 0 ∨ c'.sendPktsize = 0)
   unpaused : c'.recvPaused = .no → c'.recvBuf = []
   eofP : c'.recvState = .eofPending → c'.recvPaused ≠ .no
   closeP : c'.recvState = .closePending → c'.recvPaused ≠ .no
+  closePB : c'.recvState = .closePending → c'.recvBuf ≠ []
   closedR : (c.recvState = .closed → c.recvBuf = []) → c'.recvState = .closed → c'.recvBuf = []
   pausedMono : c'.recvPaused = .no → c.recvPaused = .no
   pausedStart : c'.recvPaused = .starting → c.recvPaused = .starting
-  eofOut : Out.eof ∈ os → c.recvState = .eofPending ∧ c'.recvState = .eof ∧ c'.recvBuf = []
+  eofOut : Out.eof ∈ os → c'.recvBuf = [] ∧
+    ((c.recvState = .eofPending ∧ c'.recvState = .eof) ∨
+     (c.recvState = .closePending ∧ c.recvEofPending = true ∧ c'.recvState = .closed))
   eofState : c'.recvState = .eof → c.recvState = .eof ∨ Out.eof ∈ os
   lostOut : Out.lost ∈ os → c'.recvState = .closed ∧ c.recvState = .closePending
   recvTrans : c'.recvState = c.recvState ∨ (c.recvState = .eofPending ∧ c'.recvState = .eof) ∨
     (c.recvState = .closePending ∧ c'.recvState = .closed)
-  shape : ∃ ds tl, os = ds ++ tl ∧ allDataOuts ds ∧ (tl = [] ∨ tl = [.eof] ∨ tl = [.lost])
-  noData : c.recvBuf = [] → os = [] ∨ os = [.eof] ∨ os = [.lost]
+  shape : ∃ ds tl, os = ds ++ tl ∧ allDataOuts ds ∧ OutTail tl
+  noData : c.recvBuf = [] → OutTail os
   bufLen : c'.recvBuf.length ≤ c.recvBuf.length
+  flagMono : c'.recvEofPending = true → c.recvEofPending = true
+  flagKeep : c'.recvState ≠ .closed → c'.recvEofPending = c.recvEofPending
+  flagOut : c.recvState = .closePending → c.recvEofPending = true → c'.recvState = .closed → Out.eof ∈ os
 
 theorem flushRecv_spec (c c' : Chan) (ms : List Msg) (os : List Out) (hw : WFs c)
     (h : flushRecv c = some (c', ms, os)) : FlushRecvSpec c c' ms os := by
@@ -491,118 +513,147 @@ theorem flushRecv_spec (c c' : Chan) (ms : List Msg) (os : List Out) (hw : WFs c
       rw [h0] at this; exact this)
     have e123 := e12.trans s3.eff (by rw [hst3]; exact e12.sendTrans)
     simp only [List.append_nil] at e123
-    refine ⟨by simpa [List.append_assoc] using e123, ?_, ?_, ?_, ?_, ?_, ?_, ?_, ?_, ?_, ?_, ?_, ?_, ?_, ?_⟩
-    · intro hx
-      have h1 : ({ c1 with recvBuf := left } : Chan).sendBuf = [] ∨ ({ c1 with recvBuf := left } : Chan).sendWindow = 0 := by
-        show c1.sendBuf = [] ∨ c1.sendWindow = 0
-        rw [hd.same.sendBuf, hd.same.sendWindow]; exact hx
-      have h2 := s2.exit h1
-      have := s3.same.sendBuf; have hw3 := s3.same.sendWindow
-      simp only at this hw3
-      rw [this, hw3]; exact h2
-    · intro hp
-      rw [hp3] at hp
-      rw [hb3]
+    have hf1 : ({ c1 with recvBuf := left } : Chan).recvEofPending = c.recvEofPending := hd.same.recvEofPending
+    have hf2 : c2.recvEofPending = c.recvEofPending := s2.recvEofPending.trans hf1
+    -- the three ways the tail of the call can go
+    have hcases :
+        (os2 = [.eof] ∧ os3 = [] ∧ c.recvState = .eofPending ∧ c3.recvState = .eof ∧ left = [] ∧
+            c3.recvEofPending = c.recvEofPending ∧ c1.recvPaused ≠ .starting) ∨
+        (os2 = [] ∧ c.recvState = .closePending ∧ c3.recvState = .closed ∧ left = [] ∧ c3.recvEofPending = false ∧
+            ((c.recvEofPending = true ∧ os3 = [.eof, .lost]) ∨ (c.recvEofPending = false ∧ os3 = [.lost]))) ∨
+        (os2 = [] ∧ os3 = [] ∧ c3.recvState = c.recvState ∧ c3.recvEofPending = c.recvEofPending ∧
+            ¬ (left = [] ∧ c1.recvPaused ≠ .starting ∧ c.recvState = .eofPending) ∧
+            ¬ (left = [] ∧ c.recvState = .closePending)) := by
+      rcases s2.fired with ⟨h2o, h2a, h2b, h2c, h2d⟩ | ⟨h2o, h2, _, hn2⟩
+      · left
+        rcases s3.fired with ⟨h3a, _⟩ | ⟨h3o, h3, _⟩
+        · rw [h2b] at h3a; cases h3a
+        · subst h3
+          exact ⟨h2o, h3o, hr1 ▸ h2a, h2b, h2c, hf2, h2d⟩
+      · subst h2
+        rcases s3.fired with ⟨h3a, h3b, h3c, h3d, h3e⟩ | ⟨h3o, h3, hn3⟩
+        · right; left
+          refine ⟨h2o, hr1 ▸ h3a, h3b, h3c, h3d, ?_⟩
+          rw [← hf1]; exact h3e
+        · subst h3
+          right; right
+          refine ⟨h2o, h3o, hr1, hf1, ?_, ?_⟩
+          · intro ⟨x1, x2, x3⟩; exact hn2 ⟨x1, x2, hr1.trans x3⟩
+          · intro ⟨x1, x2⟩; exact hn3 ⟨x1, hr1.trans x2⟩
+    have hleft_of_no : c1.recvPaused = .no → left = [] := by
+      intro hp
       rcases hd.exit with hl | hl
       · exact hl
       · exact absurd hp hl
+    refine ⟨by simpa [List.append_assoc] using e123, ?_, ?_, ?_, ?_, ?_, ?_, ?_, ?_, ?_, ?_, ?_, ?_, ?_, ?_, ?_, ?_, ?_, ?_⟩
+    · intro hx
+      have h1 : ({ c1 with recvBuf := left } : Chan).sendBuf = [] ∨ ({ c1 with recvBuf := left } : Chan).sendWindow = 0 ∨
+          ({ c1 with recvBuf := left } : Chan).sendPktsize = 0 := by
+        show c1.sendBuf = [] ∨ c1.sendWindow = 0 ∨ c1.sendPktsize = 0
+        rw [hd.same.sendBuf, hd.same.sendWindow, hd.same.sendPktsize]; exact hx
+      have h2 := s2.exit h1
+      have hsb := s3.same.sendBuf; have hw3 := s3.same.sendWindow; have hp3' := s3.same.sendPktsize
+      simp only at hsb hw3 hp3'
+      rw [hsb, hw3, hp3']; exact h2
+    · intro hp
+      rw [hp3] at hp
+      rw [hb3]; exact hleft_of_no hp
     · intro hs hp
       rw [hp3] at hp
-      have hleft : left = [] := by
-        rcases hd.exit with hl | hl
-        · exact hl
-        · exact absurd hp hl
-      -- with an empty buffer and not starting, eof_pending would have fired
-      rcases s3.fired with ⟨_, _, h3, _⟩ | ⟨_, h3, _⟩
+      have hleft := hleft_of_no hp
+      rcases hcases with ⟨_, _, _, h3, _⟩ | ⟨_, _, h3, _⟩ | ⟨_, _, h3, _, hn, _⟩
       · rw [h3] at hs; cases hs
-      · subst h3
-        rcases s2.fired with ⟨_, _, h2, _⟩ | ⟨_, h2, _, hn⟩
-        · rw [h2] at hs; cases hs
-        · subst h2
-          apply hn
-          exact ⟨hleft, by rw [hp1, hp]; simp, hs⟩
+      · rw [h3] at hs; cases hs
+      · exact hn ⟨hleft, by rw [hp]; simp, h3 ▸ hs⟩
     · intro hs hp
       rw [hp3] at hp
-      have hleft : left = [] := by
-        rcases hd.exit with hl | hl
-        · exact hl
-        · exact absurd hp hl
-      rcases s3.fired with ⟨_, _, h3, _⟩ | ⟨_, h3, hn⟩
+      have hleft := hleft_of_no hp
+      rcases hcases with ⟨_, _, _, h3, _⟩ | ⟨_, _, h3, _⟩ | ⟨_, _, h3, _, _, hn⟩
       · rw [h3] at hs; cases hs
-      · subst h3
-        exact hn ⟨by rw [hb2]; exact hleft, hs⟩
+      · rw [h3] at hs; cases hs
+      · exact hn ⟨hleft, h3 ▸ hs⟩
+    · intro hs hb
+      rw [hb3] at hb
+      rcases hcases with ⟨_, _, _, h3, _⟩ | ⟨_, _, h3, _⟩ | ⟨_, _, h3, _, _, hn⟩
+      · rw [h3] at hs; cases hs
+      · rw [h3] at hs; cases hs
+      · exact hn ⟨hb, h3 ▸ hs⟩
     · intro hpre hs
       rw [hb3]
-      rcases s3.fired with ⟨_, _, _, h3⟩ | ⟨_, h3, _⟩
-      · rw [hb2] at h3; exact h3
-      · subst h3
-        rcases s2.fired with ⟨_, _, h2, _⟩ | ⟨_, h2, _, _⟩
-        · rw [h2] at hs; cases hs
-        · subst h2
-          rw [hr1] at hs
-          have hcb := hpre hs
-          have := hd.leftLen
-          rw [hcb] at this
-          exact List.length_eq_zero_iff.mp (by simpa using this)
+      rcases hcases with ⟨_, _, _, h3, _⟩ | ⟨_, _, _, hl, _⟩ | ⟨_, _, h3, _⟩
+      · rw [h3] at hs; cases hs
+      · exact hl
+      · have hcb := hpre (h3 ▸ hs)
+        have := hd.leftLen
+        rw [hcb] at this
+        exact List.length_eq_zero_iff.mp (by simpa using this)
     · intro hp; rw [hp3] at hp; exact hd.pausedMono hp
     · intro hp; rw [hp3] at hp; exact hd.pausedStart hp
     · intro hm
-      have hm2 : Out.eof ∈ os2 := by
+      rcases hcases with ⟨_, _, h1, h3, hl, _⟩ | ⟨h2o, h1, h3, hl, _, ⟨hf, _⟩ | ⟨_, h3o⟩⟩ | ⟨h2o, h3o, _⟩
+      · exact ⟨hb3.trans hl, Or.inl ⟨h1, h3⟩⟩
+      · exact ⟨hb3.trans hl, Or.inr ⟨h1, hf, h3⟩⟩
+      · exfalso
+        rw [h2o, h3o] at hm
         rcases List.mem_append.mp hm with hm | hm
         · rcases List.mem_append.mp hm with hm | hm
-          · exact absurd hm hos1.1
-          · exact hm
-        · rcases s3.fired with ⟨h3, _⟩ | ⟨h3, _⟩ <;> (rw [h3] at hm; simp at hm)
-      rcases s2.fired with ⟨_, h2a, h2b, h2c, _⟩ | ⟨h2, _⟩
-      · rcases s3.fired with ⟨_, h3, _⟩ | ⟨_, h3, _⟩
-        · rw [h2b] at h3; cases h3
-        · subst h3
-          exact ⟨hr1 ▸ h2a, h2b, by rw [hb2]; exact h2c⟩
-      · rw [h2] at hm2; simp at hm2
+          · exact hos1.1 hm
+          · simp at hm
+        · simp at hm
+      · exfalso
+        rw [h2o, h3o] at hm
+        simp only [List.append_nil] at hm
+        exact hos1.1 hm
     · intro hs
-      rcases s3.fired with ⟨_, _, h3, _⟩ | ⟨_, h3, _⟩
+      rcases hcases with ⟨h2o, _, _⟩ | ⟨_, _, h3, _⟩ | ⟨_, _, h3, _⟩
+      · right; rw [h2o]; simp
       · rw [h3] at hs; cases hs
-      · subst h3
-        rcases s2.fired with ⟨h2, _⟩ | ⟨_, h2, _⟩
-        · right; rw [h2]; simp
-        · subst h2; left; rw [← hr1]; exact hs
+      · left; rw [← h3]; exact hs
     · intro hm
-      have hm3 : Out.lost ∈ os3 := by
+      rcases hcases with ⟨h2o, h3o, _⟩ | ⟨_, h1, h3, _⟩ | ⟨h2o, h3o, _⟩
+      · exfalso
+        rw [h2o, h3o] at hm
+        simp only [List.append_nil] at hm
         rcases List.mem_append.mp hm with hm | hm
-        · rcases List.mem_append.mp hm with hm | hm
-          · exact absurd hm hos1.2
-          · rcases s2.fired with ⟨h2, _⟩ | ⟨h2, _⟩ <;> (rw [h2] at hm; simp at hm)
-        · exact hm
-      rcases s3.fired with ⟨_, h3a, h3b, _⟩ | ⟨h3, _⟩
-      · refine ⟨h3b, ?_⟩
-        rcases s2.fired with ⟨_, _, h2, _⟩ | ⟨_, h2, _⟩
-        · rw [h2] at h3a; cases h3a
-        · subst h2; rw [← hr1]; exact h3a
-      · rw [h3] at hm3; simp at hm3
-    · rcases s3.fired with ⟨_, h3a, h3b, _⟩ | ⟨_, h3, _⟩
-      · rcases s2.fired with ⟨_, _, h2, _⟩ | ⟨_, h2, _⟩
-        · rw [h2] at h3a; cases h3a
-        · subst h2; right; right; exact ⟨hr1 ▸ h3a, h3b⟩
-      · subst h3
-        rcases s2.fired with ⟨_, h2a, h2b, _⟩ | ⟨_, h2, _⟩
-        · right; left; exact ⟨hr1 ▸ h2a, h2b⟩
-        · subst h2; left; exact hr1
+        · exact hos1.2 hm
+        · simp at hm
+      · exact ⟨h3, h1⟩
+      · exfalso
+        rw [h2o, h3o] at hm
+        simp only [List.append_nil] at hm
+        exact hos1.2 hm
+    · rcases hcases with ⟨_, _, h1, h3, _⟩ | ⟨_, h1, h3, _⟩ | ⟨_, _, h3, _⟩
+      · right; left; exact ⟨h1, h3⟩
+      · right; right; exact ⟨h1, h3⟩
+      · left; exact h3
     · refine ⟨os1, os2 ++ os3, by simp [List.append_assoc], hd.outs, ?_⟩
-      rcases s3.fired with ⟨h3, h3a, _⟩ | ⟨h3, _⟩
-      · rcases s2.fired with ⟨_, _, h2, _⟩ | ⟨h2, _⟩
-        · rw [h2] at h3a; cases h3a
-        · rw [h2, h3]; simp
-      · rcases s2.fired with ⟨h2, _⟩ | ⟨h2, _⟩ <;> (rw [h2, h3]; simp)
+      unfold OutTail
+      rcases hcases with ⟨h2o, h3o, _⟩ | ⟨h2o, _, _, _, _, ⟨_, h3o⟩ | ⟨_, h3o⟩⟩ | ⟨h2o, h3o, _⟩ <;>
+        (rw [h2o, h3o]; simp)
     · intro hcb
       have hcnt := hd.count
       rw [hcb] at hcnt
       have ho1 : os1 = [] := List.length_eq_zero_iff.mp (by simp only [List.length_nil] at hcnt; omega)
       subst ho1
-      rcases s3.fired with ⟨h3, h3a, _⟩ | ⟨h3, _⟩
-      · rcases s2.fired with ⟨_, _, h2, _⟩ | ⟨h2, _⟩
-        · rw [h2] at h3a; cases h3a
-        · rw [h2, h3]; simp
-      · rcases s2.fired with ⟨h2, _⟩ | ⟨h2, _⟩ <;> (rw [h2, h3]; simp)
+      unfold OutTail
+      rcases hcases with ⟨h2o, h3o, _⟩ | ⟨h2o, _, _, _, _, ⟨_, h3o⟩ | ⟨_, h3o⟩⟩ | ⟨h2o, h3o, _⟩ <;>
+        (rw [h2o, h3o]; simp)
     · rw [hb3]; exact hd.leftLen
+    · intro hf
+      rcases hcases with ⟨_, _, _, _, _, h3, _⟩ | ⟨_, _, _, _, h3, _⟩ | ⟨_, _, _, h3, _⟩
+      · rw [← h3]; exact hf
+      · rw [h3] at hf; cases hf
+      · rw [← h3]; exact hf
+    · intro hnc
+      rcases hcases with ⟨_, _, _, _, _, h3, _⟩ | ⟨_, _, h3, _⟩ | ⟨_, _, _, h3, _⟩
+      · exact h3
+      · exact absurd h3 hnc
+      · exact h3
+    · intro hs hf hcl
+      rcases hcases with ⟨_, _, h1, _⟩ | ⟨_, _, _, _, _, ⟨_, h3o⟩ | ⟨hf0, _⟩⟩ | ⟨_, _, h3, _⟩
+      · rw [hs] at h1; cases h1
+      · rw [h3o]; simp
+      · rw [hf] at hf0; cases hf0
+      · rw [h3, hs] at hcl; cases hcl
 
 end AsyncsshModel.Channel
